@@ -16,12 +16,13 @@ part of the point.  It is proved for every execution without such a flush
 (`recovered_exactly_once_scalar`).
 -/
 import ZenoModel.Lemmas.Crash
+import ZenoModel.Generated.Facts
 
 namespace Zeno.C02
 open Zeno.Crash
 
 /-- The empty directory satisfies the invariant. -/
-theorem inv_init : Inv State.init := inv_init'
+theorem inv_init (src : Nat) : Inv (State.initCfg src src) := inv_initCfg src
 
 /-- Every event of the protocol preserves the invariant `Inv`
     ((i) every file in the directory is complete and reflects exactly the applications of the WAL
@@ -36,8 +37,9 @@ theorem inv_step {s s' : State} {e : Event} (h : Inv s) (hs : stepA s e = some s
 theorem reachable_inv {s : State} (h : ReachableA s) : Inv s := reachableA_inv h
 
 /-- The same, phrased over event lists. -/
-theorem reachable_inv_run (es : List Event) {s : State} (h : runA State.init es = some s) : Inv s :=
-  reachableA_inv (reachableA_runA ReachableA.init es h)
+theorem reachable_inv_run (src : Nat) (es : List Event) {s : State}
+    (h : runA (State.initCfg src src) es = some s) : Inv s :=
+  reachableA_inv (reachableA_runA (ReachableA.init src) es h)
 
 /-- Only complete files ever appear in the table directory (rename happens after sync), so the
     "unreadable newest file → fall back to an older file" branch of `openRowStore` is never taken
@@ -61,7 +63,7 @@ theorem recovered_exactly_once_scalar {s : State} (h : Reachable s) (hsc : Scala
 
 /-- `recover` is what the event sequence `crash; reopen; catchUp` does to a running process. -/
 theorem recover_is_crash_reopen_catchUp {s : State} (hup : s.up = true) :
-    run s [.crash, .reopen (startPos (crashF s)), .catchUp] = some (recover s) := by
+    run s [.crash, .reopen (readPos (crashF s)), .catchUp] = some (recover s) := by
   simp [run, step, hup, crashF, reopenF, recover]
 
 /-- nothing is lost: every application of every acknowledged entry is in the recovered table -/
@@ -94,6 +96,77 @@ theorem clean_close {s : State} (h : ReachableA s) (hup : s.up = true) (hph : s.
   obtain ⟨s', hr, h1, h2, h3⟩ := closeEvents_run hup hph hp
   exact ⟨s', hr, h1, h2, h3, recovered_exactly_once_partial (reachableA_runA h _ hr)⟩
 
+/-! ### configuration independence: the source id under which offsets are stored and looked up -/
+
+/-- Recovery does not depend on the database's configuration: the protocol model has exactly one
+    configuration input, the pair (source the WAL reader tags entries with = key the offsets are
+    stored under, key `CreateTable` looks the resume offset up under); whatever value that source
+    has (0, `DBOpts.ID`, anything) C02 holds as long as both are the SAME — for every event list,
+    any number of crashes. -/
+theorem recovery_independent_of_db_id (src : Nat) (es : List Event) {s : State}
+    (h : runA (State.initCfg src src) es = some s) : RecoveredExactlyOnce s :=
+  recovered_exactly_once_partial (reachableA_runA (ReachableA.init src) es h)
+
+/-- the configuration never changes, in particular not across crashes and restarts -/
+theorem config_fixed {s s' : State} {e : Event} (hs : step s e = some s') :
+    s'.tagSrc = s.tagSrc ∧ s'.lookSrc = s.lookSrc := by
+  cases e <;> simp only [step] at hs
+  case catchUp =>
+    split at hs
+    · cases hs; exact drain_cfg _ _
+    · cases hs
+  case reopen p =>
+    split at hs
+    · cases hs; exact ⟨by simp [reopenF], by simp [reopenF]⟩
+    · cases hs
+  all_goals
+    repeat' split at hs
+    all_goals first | (cases hs; exact ⟨rfl, rfl⟩) | cases hs
+
+/-- one scalar point, acknowledged, flushed; clean exit; restart; catch-up -/
+def restartTrace : List Event :=
+  [.reopen 0, .walAppend ⟨1, false, 1⟩, .walAck 1, .apply 1,
+   .flushBegin, .tmpWritten, .tmpSynced, .renamed, .swapped, .crash, .reopen 0, .catchUp]
+
+/-- `lookup source = store source` is exactly what exactly-once needs: for EVERY pair of
+    different sources (e.g. entries tagged 0, offset looked up under a non-zero `DBOpts.ID`) the
+    plain flush / exit / restart execution is accepted by the protocol — the reader restarts at
+    the beginning of the WAL — and the acknowledged, already flushed insert is counted twice. -/
+theorem source_mismatch_double_counts (tag look : Nat) (hne : look ≠ tag) :
+    ∃ s, run (State.initCfg tag look) restartTrace = some s ∧
+      s.content = [(1, 0), (1, 0)] ∧ flat s.wal = [(1, 0)] ∧ s.content.count (1, 0) = 2 := by
+  let f : File := { apps := [(1, 0)], pos := 1, complete := true }
+  refine ⟨{ wal := [⟨1, false, 1⟩], acked := [1], files := [f], offFile := 0, tagSrc := tag, lookSrc := look,
+            up := true, cur := f, mem := [(1, 0)], memPos := 1, offChanged := true, rd := 1, pend := 0,
+            phase := .idle, flushCount := 0 }, ?_, rfl, rfl, rfl⟩
+  simp [restartTrace, run, step, State.initCfg, readPos, startPos, pickFile, reopenF, crashF, hne,
+    catchUpF, drain, ingestEntry, Entry.apps, File.empty, f]
+
+/-- Tie of the model's single configuration input to the code, regenerated from /repo on every
+    run (tools/extract/walsource.go): the expression that tags a standalone table's WAL entries
+    with their source (insert.go `processWALInserts`) and the key `CreateTable` looks the resume
+    offset up under (table.go) are the SAME expression, and in between the tag travels unchanged
+    (`read.source` → `insert.source` → `ms.offsetsBySource[insert.source]`).  So whatever the
+    configuration evaluates that expression to, the model is instantiated with `tagSrc = lookSrc`
+    and `recovery_independent_of_db_id` applies. -/
+theorem wal_source_same_expression :
+    Facts.walSource.tags = Facts.walSource.lookups ∧ Facts.walSource.tags.length = 1 ∧
+    Facts.walSource.stores = ["insert.source"] ∧
+    Facts.walSource.carries = ["insert:read.source", "skip:read.source"] := by decide
+
+/-- the concrete instance of the seeded regression: entries tagged 0, lookup under ID 7 -/
+theorem source_mismatch_witness :
+    ∃ s, run (State.initCfg 0 7) restartTrace = some s ∧ s.rd = 1 ∧ s.memPos = 1 ∧
+      s.content = [(1, 0), (1, 0)] ∧ flat s.wal = [(1, 0)] := by
+  refine ⟨_, rfl, ?_, ?_, ?_, ?_⟩ <;> decide
+
+/-- with matching sources the same execution resumes after the flushed entry -/
+theorem source_match_resumes :
+    ∃ s, runA (State.initCfg 7 7) [.reopen 0, .walAppend ⟨1, false, 1⟩, .walAck 1, .apply 1,
+        .flushBegin, .tmpWritten, .tmpSynced, .renamed, .swapped, .crash, .reopen 1, .catchUp] = some s ∧
+      s.content = [(1, 0)] := by
+  refine ⟨_, rfl, ?_⟩; decide
+
 /-! ### D12: the property is false at full strength -/
 
 /-- one array-valued point (two `rowStore.insert`s), acknowledged; a flush lands after the first
@@ -113,7 +186,7 @@ theorem d12_witness :
 theorem recovered_exactly_once_false : ¬ ∀ s, Reachable s → RecoveredExactlyOnce s := by
   intro hall
   obtain ⟨s, hrun, _, hflat, hcont, _⟩ := d12_witness
-  have hr : Reachable s := reachable_run Reachable.init _ hrun
+  have hr : Reachable s := reachable_run (Reachable.init 0) _ hrun
   have := (hall s hr).1
   rw [hflat, hcont] at this
   exact absurd this (by decide)
@@ -141,7 +214,7 @@ example : ∃ s, runA State.init demoTrace = some s ∧ ReachableA s ∧ ¬ Scal
     s.files.length = 2 ∧ s.offFile = 3 ∧ s.content = flat s.wal ∧
     s.content = [(1, 0), (1, 1), (1, 2), (5, 0), (6, 0), (6, 1)] := by
   have hrun : runA State.init demoTrace = some ((runA State.init demoTrace).getD State.init) := by decide
-  refine ⟨_, hrun, reachableA_runA ReachableA.init demoTrace hrun, ?_, ?_, ?_, ?_, ?_⟩
+  refine ⟨_, hrun, reachableA_runA (ReachableA.init 0) demoTrace hrun, ?_, ?_, ?_, ?_, ?_⟩
   · intro h; exact absurd (h ⟨1, false, 3⟩ (by decide)) (by decide)
   all_goals decide
 
@@ -150,7 +223,7 @@ example : ∃ s, ReachableA s ∧ s.up = true ∧ s.phase = .idle ∧ s.pend = 0
 by
   have hrun : runA State.init [.reopen 0, .walAppend ⟨1, false, 1⟩, .walAck 1, .apply 1] =
       some ((runA State.init [.reopen 0, .walAppend ⟨1, false, 1⟩, .walAck 1, .apply 1]).getD State.init) := by decide
-  exact ⟨_, reachableA_runA ReachableA.init _ hrun, by decide, by decide, by decide, by decide⟩
+  exact ⟨_, reachableA_runA (ReachableA.init 0) _ hrun, by decide, by decide, by decide, by decide⟩
 
 /-- Why `files_complete` matters: with an unreadable newest file (not producible by a process
     kill — disk corruption) the fallback of `openRowStore` combines an older file with a newer
